@@ -159,6 +159,19 @@ func (d *Decoder) decodeValue(value reflect.Value) {
 		return
 	}
 	if m, ok := value.Interface().(Unmarshaler); ok {
+		if o, isObject := value.Interface().(Object); isObject {
+			// custom decoders of objects expect that constructor id is already read, like
+			// decodeRegisteredObject does
+			crcCode := d.PopCRC()
+			if d.err != nil {
+				d.err = errors.Wrap(d.err, "read crc")
+				return
+			}
+			if crcCode != o.CRC() {
+				d.err = fmt.Errorf("invalid crc code: %#v, want: %#v", crcCode, o.CRC())
+				return
+			}
+		}
 		err := m.UnmarshalTL(d)
 		if err != nil {
 			d.err = err
